@@ -93,6 +93,78 @@ def replay_tok(m, N, R, partial, retain, with_lens):
     return None
 
 
+def tok_p_vc(partial, retain):
+    """P rung: chunk_token_sequences_by_slices for a SYMBOLIC batch size and number of tokens, lengths given. keep(n, r) - the
+    property's selection - : r below the length, both boundaries known (>= 0), end >= start, and the segment contained in the slice
+    (start_slice <= start and end <= end_slice) resp. overlapping it (start_slice < end and start < end_slice). With cnt(n, r) = number
+    of kept tokens of sequence n before r (the partial sums of the code's own count):
+        chunked_lens[n] = cnt(n, R);  a kept token r lands at position cnt(n, r) with its token id unchanged - and, when boundaries are
+        retained, its boundaries unchanged.
+    The slice-relative boundaries (retain=False) stay with the S rung: the pinned code adds the slice start instead of subtracting it
+    (known finding KF-C10-1), which a P clause would only leave undecided.  Compaction contracts and inductions as in C09
+    (contracts/C09_vc.py::prove_prefix_compaction, feature size 3)."""
+    import pydrobert.torch._feats as FE
+    from contracts import C09_vc
+    from vf.pyvc import symtensor as stn
+
+    z = ip.to_z3
+    N, R, N0, R0, F0, N1, R1, F1, Q0 = z3.Ints("N R n0 r0 f0 n1 r1 f1 q0")
+    Iz = z3.IntSort()
+    REFS, SLI, RL = z3.Function("refs", Iz, Iz, Iz, Iz), z3.Function("slices", Iz, Iz, Iz), z3.Function("ref_lens", Iz, Iz)
+    LIN = z3.Function("lin_3", Iz, Iz)
+    F = z3.IntVal(3)
+    lin_step = lambda i: LIN(i + 1) == LIN(i) + F
+    i_ = z3.Int("i_q")
+    tok, st_, en_ = (lambda n, r: REFS(n, r, 0)), (lambda n, r: REFS(n, r, 1)), (lambda n, r: REFS(n, r, 2))
+    ss, se = (lambda n: SLI(n, 0)), (lambda n: SLI(n, 1))
+    inside = (lambda n, r: z3.And(ss(n) < en_(n, r), se(n) > st_(n, r))) if partial else (lambda n, r: z3.And(ss(n) <= st_(n, r), se(n) >= en_(n, r)))
+    KEEP = lambda n, r: z3.And(r < RL(n), st_(n, r) >= 0, en_(n, r) >= 0, en_(n, r) >= st_(n, r), inside(n, r))
+    true_at = lambda n: z3.BoolVal(True)
+
+    def thunk(I):
+        I.stubs.update(stn.stubs())
+        refs = stn.ST((N, R, 3), lambda a, b, c: REFS(z(a), z(b), z(c)), "long")
+        slices = stn.ST((N, 2), lambda a, b: SLI(z(a), z(b)), "long")
+        ref_lens = stn.ST((N,), lambda a: RL(z(a)), "long")
+        prove = C09_vc.window_pair_prover(I, N, F, LIN, lin_step, true_at, (N0, Q0, F0), (N1, R1, F1))
+
+        def hook(rec2, src):
+            rec1 = getattr(src, "compaction", None)
+            sums = [s_ for s_ in I.ex.ghost.get("sums", []) if s_.get("kind") == "sum"]
+            if rec1 is None or rec1["rank_"] != 3 or rec2["rank_"] != 3 or len(sums) != 1 or "cnt" in I.ex.ghost:
+                raise ip.Unsupported("chunk_token_sequences_by_slices: one count of the kept tokens and one scatter of the selected triples expected")
+            I.ex.ghost["cnt"] = C09_vc.prove_prefix_compaction(I, rec1, rec2, sums[0], N, R, F, LIN, lin_step, KEEP, (N0, R0, F0, Q0), (N1, R1, F1), prove)
+
+        I.ex.ghost["scatter_hooks"] = [hook]
+        return I.call(FE.chunk_token_sequences_by_slices, [refs, slices, ref_lens, partial, retain], {})
+
+    def post(p):
+        if not api.returns(p) or not isinstance(p.value, tuple) or len(p.value) != 2 or "cnt" not in p.ghost:
+            return False
+        out, lens = p.value
+        PS = p.ghost["cnt"]
+        kept = z3.And(0 <= N0, N0 < N, 0 <= R0, R0 < R, KEEP(N0, R0))
+        q = PS(N0, R0)
+        goals = [("result_shape", z3.And(z3.BoolVal(len(out.shape) == 3 and len(lens.shape) == 1), z(out.shape[0]) == N, z(out.shape[1]) == R, z(out.shape[2]) == 3, z(lens.shape[0]) == N)),
+                 ("reported_count_is_the_number_of_kept_tokens", z3.Implies(z3.And(0 <= N0, N0 < N), z(lens.elem(N0)) == PS(N0, R))),
+                 # f0: a generic coordinate of the triple (0 = token id, 1 = start, 2 = end)
+                 ("kept_token_lands_at_its_count_with_its_id", z3.Implies(z3.And(kept, F0 == 0), z3.And(q < PS(N0, R), z(out.elem(N0, q, F0)) == REFS(N0, R0, F0))))]
+        if retain:
+            goals.append(("retained_triple_is_unchanged", z3.Implies(kept, z(out.elem(N0, q, F0)) == REFS(N0, R0, F0))))
+        return goals
+
+    pre = [N >= 1, R >= 0, LIN(0) == 0, z3.ForAll([i_], lin_step(i_)), 0 <= F0, F0 < 3]
+    return VC("C10.P.tok_chunks", "chunk_token_sequences_by_slices[partial=%s, retain=%s; symbolic N, R]" % (partial, retain), M, "chunk_token_sequences_by_slices", thunk, pre=pre,
+              posts=[("kept_tokens_in_order", post)], inputs={"N": N, "R": R}, timeout_ms=40000, max_paths=64, witness_hints=[N == 1, R == 2],
+              assumptions=["boolean-mask indexing / masked_scatter_ = stable row-major compaction through per-dimension counters, sum over a symbolic extent = partial sums (assumed contracts of vf/pyvc/symtensor.py, differentially tested against torch)",
+                           "the inductions (count range, count growth, coefficients, frames, sequences) are applied outside the solver: base and step are obligations",
+                           "lengths given; slice-relative boundaries (retain=False): S rung and bounded driver (known finding KF-C10-1)"])
+
+
+def tok_p_vcs(ctx):
+    return [tok_p_vc(partial, retain) for partial in (False, True) for retain in (True, False)]
+
+
 def fixed_p_vc(window_type, valid_only, lobe):
     """P rung: slice_spect_data, policy 'fixed', in_lens omitted, for SYMBOLIC batch size N and frames T and one lobe size per VC.
     Documented policy: windows of `size` frames (2 lobe + 1 symmetric, else lobe + 1) every lobe + 1 frames; with valid_only those
